@@ -236,11 +236,32 @@ std::string handle_t(const std::string& kind, const Args& a) {
         else
 #endif
         {
-        // lhs row-major (M,K); rhs column-major (K,N): the only combination the SIMD matmul evaluator accepts
+        // lhs row-major (M,K) + rhs column-major (K,N): the only combination eval_matmul itself accepts (default);
+        // a column-major lhs (llayout=col) is meant to be handed to the scalar evaluator by operator(), with either rhs
+        // layout; row-major lhs + row-major rhs does not compile (static_assert in eval_matmul)
         const auto& ctx = C12_CTX;
-        row_t<T> l; fill<row_t<T>,T>(l, nats(a,"lshape"), reals(a,"ldata"));
-        col_t<T> r; fill<col_t<T>,T>(r, nats(a,"rshape"), reals(a,"rdata"));
-        return cmp2<T>(na::matmul(l, r, ctx), na::matmul(l, r), o);
+        std::string ll = has(a,"llayout") ? get(a,"llayout") : std::string("row");
+        std::string rl = has(a,"rlayout") ? get(a,"rlayout") : std::string("col");
+        if (ll=="row" && rl=="col") {
+            row_t<T> l; fill<row_t<T>,T>(l, nats(a,"lshape"), reals(a,"ldata"));
+            col_t<T> r; fill<col_t<T>,T>(r, nats(a,"rshape"), reals(a,"rdata"));
+            return cmp2<T>(na::matmul(l, r, ctx), na::matmul(l, r), o);
+        }
+        if (ll=="col" && rl=="col") {
+            col_t<T> l; fill<col_t<T>,T>(l, nats(a,"lshape"), reals(a,"ldata"));
+            col_t<T> r; fill<col_t<T>,T>(r, nats(a,"rshape"), reals(a,"rdata"));
+            return cmp2<T>(na::matmul(l, r, ctx), na::matmul(l, r), o);
+        }
+#ifdef C12_MATMUL_LHS_FALLBACK
+        // only compiles once the layout test of operator() on the lhs is effective (fixes/C12-matmul-lhs-layout-fallback.diff):
+        // in the unchanged tree every lhs reaches eval_matmul and its static_assert on the rhs layout
+        if (ll=="col" && rl=="row") {
+            col_t<T> l; fill<col_t<T>,T>(l, nats(a,"lshape"), reals(a,"ldata"));
+            row_t<T> r; fill<row_t<T>,T>(r, nats(a,"rshape"), reals(a,"rdata"));
+            return cmp2<T>(na::matmul(l, r, ctx), na::matmul(l, r), o);
+        }
+#endif
+        return "unsupported";
         }
     }
     return "unknown-op";
